@@ -245,6 +245,35 @@ impl Prop for C14 {
                 if rng.bool() { t.swap(1, 2); }
                 out.push(format!("tri {} {} {} {}", var.name, enc(var, &t[0]), enc(var, &t[1]), enc(var, &t[2])));
             }
+            // raw-octet shapes (route target, EVPN, FlowSpec): triples of values of DIFFERENT lengths that share
+            // leading octets – two "complete" values differing in one early and one late octet in opposite
+            // directions, and a shorter one cut from between them. An ordering that switches keys with the
+            // length of a value (e.g. structured fields for complete values, raw octets otherwise) shows up
+            // as a cycle only on such mixed triples.
+            if matches!(var.shape, Shape::Rt | Shape::Evpn | Shape::Fs) && !(var.shape == Shape::Fs && !var.v6) {
+                for _ in 0..(60 * scale) {
+                    let full = if var.shape == Shape::Rt { 12 } else { rng.usize(6, 14) };
+                    let base = rng.bytes(full);
+                    let (mut a, mut b) = (small_val(rng, var), small_val(rng, var));
+                    let i = rng.usize(0, 3.min(full - 2));
+                    let j = rng.usize(full / 2, full - 1);
+                    let (mut ra, mut rb) = (base.clone(), base.clone());
+                    ra[i] = ra[i] & 0xfe; rb[i] = ra[i] | 1;            // a < b on the early octet
+                    ra[j] = ra[j] | 0x10; rb[j] = ra[j] & 0xef;         // a > b on the late octet
+                    a.raw = ra.clone(); b.raw = rb.clone();
+                    let mut c = small_val(rng, var);
+                    let cut = rng.usize(i + 1, full - 1);
+                    let mut rc = ra[..cut].to_vec();
+                    if rng.bool() { rc.push(0xff); } else if rng.bool() { rc.push(0x00); }
+                    c.raw = rc;
+                    c.pid = a.pid; b.pid = a.pid;
+                    if var.shape == Shape::Evpn { b.t = a.t; c.t = a.t; }
+                    let mut t = [a, b, c];
+                    if rng.bool() { t.swap(0, 2); }
+                    if rng.bool() { t.swap(1, 2); }
+                    out.push(format!("tri {} {} {} {}", var.name, enc(var, &t[0]), enc(var, &t[1]), enc(var, &t[2])));
+                }
+            }
             // a few inputs that do not parse
             out.push(format!("cmp {} {} {}", var.name, hex(&rng.bytes(2)), enc(var, &small_val(rng, var))));
         }
